@@ -1078,6 +1078,10 @@ impl TwoFloat {
             Self::from(0.0)
         } else if self <= 0.0 {
             Self::NAN
+        } else if self.hi < hexf64!("0x1.0p-1000") {
+            // exp(-ln(self)) in the iteration below overflows for arguments
+            // this small (ln_1p reaches them just above -1): rescale exactly
+            (self * hexf64!("0x1.0p200")).ln() - 200.0 * LN_2
         } else {
             let mut x = Self::from(libm::log(self.hi));
             x += self * (-x).exp() - 1.0;
